@@ -476,7 +476,9 @@ fn plan(property: &str, tier: &str) -> Option<Plan> {
             Some(Plan {
                 property: property.into(),
                 jobs: with_guards(jobs_for(&progs, &ws)),
-                specs: Box::new(move |_j| levels.iter().flat_map(|&l| [Spec { mode: Mode::Unsafe(0), ..Spec::full(Backend::Bc, l) }, Spec { mode: Mode::Unsafe(0), ..Spec::full(Backend::Jit, l) }]).collect()),
+                // the release part (tail-call dispatch: the interpreter does not re-enter `enter_ops`, and so does not
+                // re-grow the tape, before every instruction) runs the interpreter only; the JIT is profile-independent
+                specs: Box::new(move |_j| levels.iter().flat_map(|&l| if cfg!(debug_assertions) { vec![Spec { mode: Mode::Unsafe(0), ..Spec::full(Backend::Bc, l) }, Spec { mode: Mode::Unsafe(0), ..Spec::full(Backend::Jit, l) }] } else { vec![Spec { mode: Mode::Unsafe(0), ..Spec::full(Backend::Bc, l) }] }).collect()),
                 cfg: base_cfg(property, tier),
                 time_box: Duration::from_secs(if thorough { 1000 } else { 150 }),
                 level: "model_checking",
@@ -492,7 +494,11 @@ fn plan(property: &str, tier: &str) -> Option<Plan> {
             for p in corpus::gen_roaming(seed(), if thorough { 300 } else { 100 }) {
                 progs.push(("ROAM".into(), p));
             }
-            let cfgs: Vec<(Backend, u32)> = if thorough {
+            let cfgs: Vec<(Backend, u32)> = if !cfg!(debug_assertions) {
+                // release part: the bytecode interpreter with tail-call dispatch (a debug build re-enters `enter_ops`,
+                // which re-establishes the access window, before every instruction and so hides window errors of single ops)
+                if thorough { vec![(Backend::Bc, 0), (Backend::Bc, 1), (Backend::Bc, 2), (Backend::Bc, 3)] } else { vec![(Backend::Bc, 0), (Backend::Bc, 2), (Backend::Bc, 3)] }
+            } else if thorough {
                 vec![(Backend::Inplace, 0), (Backend::Ir, 0), (Backend::Ir, 2), (Backend::Ir, 3), (Backend::Bc, 0), (Backend::Bc, 1), (Backend::Bc, 2), (Backend::Bc, 3), (Backend::Jit, 0), (Backend::Jit, 1), (Backend::Jit, 2), (Backend::Jit, 3)]
             } else {
                 vec![(Backend::Inplace, 0), (Backend::Ir, 2), (Backend::Bc, 0), (Backend::Bc, 2), (Backend::Bc, 3), (Backend::Jit, 0), (Backend::Jit, 2)]
@@ -590,7 +596,7 @@ pub fn run_check(property: &str, tier: &str, part: Option<&str>, worker: bool) -
         return run_c15(tier);
     }
     if !worker && matches!(property, "C06" | "C10") {
-        return supervise(property, tier);
+        return supervise(property, tier, part);
     }
     let tier = if tier == "thorough" { "thorough" } else { "quick" };
     // machinery self-checks first: a broken oracle or normaliser makes everything inconclusive
@@ -619,7 +625,7 @@ pub fn run_check(property: &str, tier: &str, part: Option<&str>, worker: bool) -
         None
     };
     // C03 (c) / C06 (b): the pointer-move sequence of the JIT with symbolic tape geometry
-    let probe_handle = if (property == "C03" || property == "C06") && part.is_none() && std::env::var("SYMX_ONLY_FAMILY").is_err() {
+    let probe_handle = if (property == "C03" || property == "C06") && (part.is_none() || cfg!(debug_assertions)) && std::env::var("SYMX_ONLY_FAMILY").is_err() {
         let prop: &'static str = if property == "C03" { "C03" } else { "C06" };
         Some(std::thread::Builder::new().stack_size(1 << 26).spawn(move || crate::probe::run_parallel(thorough_tier, if thorough_tier { 900 } else { 140 }, prop)).unwrap())
     } else {
@@ -1019,11 +1025,16 @@ pub fn minimize(property: &str, code: &str, width: u32, tier: &str) {
 /// Run a guard-allocator check in a child process: a guard-page fault kills the child
 /// (exit 77 with the case it was running); the fault is then replayed natively under the
 /// same allocator before it is reported.
-fn supervise(property: &str, tier: &str) -> i32 {
+fn supervise(property: &str, tier: &str, part: Option<&str>) -> i32 {
     use std::io::{BufRead, BufReader};
     use std::process::{Command, Stdio};
     let exe = std::env::current_exe().expect("current_exe");
-    let mut child = Command::new(exe).args(["check", property, "--tier", tier, "--worker"]).stdout(Stdio::piped()).spawn().expect("spawn worker");
+    let mut args: Vec<String> = ["check", property, "--tier", tier, "--worker"].iter().map(|s| s.to_string()).collect();
+    if let Some(p) = part {
+        args.push("--part".into());
+        args.push(p.to_string());
+    }
+    let mut child = Command::new(exe).args(&args).stdout(Stdio::piped()).spawn().expect("spawn worker");
     let out = child.stdout.take().unwrap();
     let mut fault: Option<String> = None;
     for line in BufReader::new(out).lines().map_while(Result::ok) {
